@@ -125,7 +125,46 @@ func StartHistory(rec *Recorder, reset Ev) *Chain {
 // Step applies one operation (a message, a keeper call, or a whole end-of-block) and logs
 // the resulting event(s).  It returns the state after the step.
 func Step(c *Chain, rec *Recorder, op Ev) (applied bool) {
+	emitMeta := func(name string) {
+		ev := Ev{Name: name, OK: true}
+		c.normalise(&ev)
+		if rec != nil {
+			rec.Emit(ev, c.TakeCallbacks(), c.Project())
+		} else {
+			c.TakeCallbacks()
+		}
+	}
+	if c.tx != nil {
+		switch op.Name {
+		case "TxBegin":
+			return false
+		case "TxEnd", "TxAbort", "TxCommit":
+			if c.EndTx() {
+				emitMeta("TxCommit")
+			} else {
+				emitMeta("TxAbort")
+			}
+			return true
+		case "Define", "Bind", "UpdateBinding", "Disable", "Enable", "RefundDeposit", "SetWithdrawAddr", "Call", "Respond",
+			"Pause", "Start", "Kill", "UpdateContext", "Withdraw", "BankSend":
+			if c.tx.failed {
+				return false // the transaction has failed already: nothing more of it is executed
+			}
+		default:
+			// anything that is not a message ends the transaction first
+			Step(c, rec, Ev{Name: "TxEnd"})
+		}
+	}
 	switch op.Name {
+	case "TxBegin":
+		if c.Phase != "deliver" {
+			return false
+		}
+		c.BeginTx()
+		emitMeta("TxBegin")
+		return true
+	case "TxEnd", "TxAbort", "TxCommit":
+		return false
 	case "BeginEndBlock", "ExpireBatch", "Mid", "StartBatch", "reset":
 		// sub-steps are produced by the real EndBlocker, never requested
 		return false
@@ -208,7 +247,13 @@ func Step(c *Chain, rec *Recorder, op Ev) (applied bool) {
 		return true
 	}
 	if !c.Apply(&op) {
+		if c.tx != nil {
+			c.tx.failed = true // (a message that fails its stateless checks fails the transaction)
+		}
 		return false
+	}
+	if c.tx != nil && !op.OK {
+		c.tx.failed = true
 	}
 	if rec != nil {
 		rec.Emit(op, c.TakeCallbacks(), c.Project())
